@@ -865,7 +865,12 @@ def judge(case):
                                 blob += ' zm_v(probe line refers to the archive module)'
                     zipcache = (last_zip_write is not None and
                                 proc_started.get(op.get('proc', 0), i) < last_zip_write and
-                                ('vendor.zip' in blob or 'zm_v' in blob))
+                                ('vendor.zip' in blob or 'zm_v' in blob or
+                                 # garbled member data (stale zip directory, new bytes) surfaces as an exception of
+                                 # ANY query of a buffer that imports the archive's module, e.g. a reference
+                                 # search that follows every import of the buffer
+                                 (is_exc(a) and not is_exc(b) and k == 'query' and
+                                  re.search(r'\bzm\b', op.get('code') or '') is not None)))
                     ta, tb = set(TAG.findall(json.dumps(a))), set(TAG.findall(json.dumps(b)))
                     problems.append(('stale:%s%s' % (p['m'], '@zipcache' if zipcache else ''), {
                         'op': i, 'probe': p, 'stale_names': sorted(ta - tb)[:6], 'missed_names': sorted(tb - ta)[:6],
